@@ -364,7 +364,7 @@ class C11(runner.Check):
         nstates = 0
         for tvs in values.arrays(T, N, M, K=6):
             nstates += 1
-            if nstates > (150 if tier == "quick" else 600):
+            if nstates > (100 if tier == "quick" else 600):
                 st.caps.append("type %s: state cap reached" % values.tstr(T))
                 break
             for d, names in encs.encodings(T, tvs, 1):
